@@ -26,6 +26,7 @@ var c10Good = []string{
 	`m = {"a": 1}; m.a = 2; println(m, len("abc"), [1, 2][0])`,
 	`func lp() { t = 0; for k = 4 { if k == 2 { continue }; t = t + k }; t }; println(lp())`,
 	`println(catch(for i9 = 2 { i9 = "a" }).err)`, // observes whether top level loops still get a register
+	`println(catch(rec(14)).value)`, // a call whose frames are in flight when the CANCEL inputs below are cut off
 	`DEPTHPROBE`, // replaced by the deepest recursion that still fits under MaxDepth: fails if any depth level leaked
 }
 
@@ -48,6 +49,8 @@ var c10Bad = []string{
 	`func(a, b) { a + b }(1)`,
 	`for z1 = 2 { for z2 = 3 { verif_panic() } }`, // leaves registers allocated in the root environment (its loop variables are not observed by the succeeding inputs)
 	`for z3 = 2 { rec(100) }`,                      // depth overflow (or unknown function) inside a counted loop at top level
+	// cancellation striking inside memoizable calls (frames rec(16)..rec(13) in flight), at 1/4, 1/2 and 3/4 of the evaluation
+	`CANCEL:25:println(rec(16))`, `CANCEL:50:println(rec(16))`, `CANCEL:75:println(rec(16))`,
 	`break`, `if true { continue }`, `func() { break }()`, `for true { func() { continue }() }`,
 }
 
@@ -78,7 +81,49 @@ func c10DepthProbe() string {
 	return c10ProbeSrc
 }
 
+var c10CancelPolls = map[string]int{}
+
+// c10CancelAt returns the poll at which a CANCEL:<pct>:<src> input is cut off: pct percent of the polls src makes
+// on a session that has only defined rec (measured once; deterministic).
+func c10CancelAt(pct int, src string) int {
+	n, ok := c10CancelPolls[src]
+	if !ok {
+		x := newSess(sessCfg{maxDepth: c10MaxDepth})
+		x.step(c10Good[8])
+		// (repl.EvalOne derives its own context, whose Err() does not poll the parent: the cut-off inputs are
+		// therefore evaluated like evalOne does - parse, macros, Eval - with the counting context installed directly)
+		lo, hi := 0, 1<<20
+		for lo < hi { // smallest budget under which src completes = its number of polls
+			mid := (lo + hi) / 2
+			y := newSess(sessCfg{maxDepth: c10MaxDepth})
+			y.step(c10Good[8])
+			if r := implEval(y, src, mid); r.isErr {
+				lo = mid + 1
+			} else {
+				hi = mid
+			}
+		}
+		_ = x
+		n = lo
+		c10CancelPolls[src] = n
+	}
+	return n * pct / 100
+}
+
 func c10Step(x *sess, in string) stepRec {
+	if strings.HasPrefix(in, "CANCEL:") {
+		var pct int
+		rest := strings.TrimPrefix(in, "CANCEL:")
+		fmt.Sscanf(rest, "%d", &pct)
+		src := rest[strings.IndexByte(rest, ':')+1:]
+		r := implEval(x, src, c10CancelAt(pct, src))
+		rec := stepRec{out: r.out}
+		if r.isErr {
+			rec.errs = []string{r.errText}
+			rec.out = ""
+		}
+		return rec
+	}
 	if in == "DEEP" {
 		in = c10Deep()
 	}
@@ -129,6 +174,9 @@ func c10Check(h []int, noReg bool) *core.Viol {
 	for i, x := range h {
 		if x < 0 {
 			r := c10Step(full, c10Bad[-x-1])
+			if len(r.errs) == 0 && !r.panicked && strings.HasPrefix(c10Bad[-x-1], "CANCEL:") {
+				return nil // finished before the cancellation instant (its calls were already cached): not a failing input here
+			}
 			if len(r.errs) == 0 && !r.panicked {
 				return &core.Viol{Class: "harness: failing input did not fail", Detail: c10Bad[-x-1] + " -> " + r.String(), Case: core.Case{Kind: "hist", Data: c10Encode(h)}, FindText: c10Render(h)}
 			}
